@@ -9,7 +9,7 @@ def plan(tier, seed):
     for ki in range(nk):
         for bi in range(nb):
             for ci in range(nc):
-                if q and (ki + bi + ci + seed) % 7:
+                if q and (ki + bi + ci + seed) % 9:
                     continue
                 units.append(dict(hfile='math.py', fname='c12_region', args=(ki, bi, ci)))
         for si in range(ns):
@@ -29,7 +29,7 @@ def plan(tier, seed):
         for n in (0, 1, 2):
             units.append(dict(hfile='math.py', fname='c12_escaped_dollar', args=(ci, n)))
     return dict(units=units,
-                bounds={'kinds': 'the four delimiter pairs and all 17 named math environments', 'bodies': '%d body templates with math-text holes over all code points except \\ { } $ %% NUL DEL CR (brackets and parentheses included), %s' % (nb, 'every 7th (kind, body, context) combination' if q else 'all combinations'),
+                bounds={'kinds': 'the four delimiter pairs and all 17 named math environments', 'bodies': '%d body templates with math-text holes over all code points except \\ { } $ %% NUL DEL CR (brackets and parentheses included), %s' % (nb, 'every 9th (kind, body, context) combination' if q else 'all combinations'),
                         'sizing': 'six sizing prefixes x symbolic single-character delimiter in ( ) < > [ ] . | and the 12 multi-character delimiters',
                         'contexts': 'top, between text, env body, item, brace argument, group, env with bracket argument, directly after / before a line break',
                         'adjacent': '%d ordered pairs of kinds' % len(pairs)},
